@@ -7,6 +7,24 @@ META = {
         text="Kernel-checked: XA / empty / XL / XD / ZZ / database answer are decided in that order by the class of the address; non-global addresses never reach the database; over the whole generated table no label value derives from a client address or from an unclassifiable expression, label names are the fixed set, values are numeric counts/durations.",
         note="Proof over generated table + model; the provenance analysis (extractor) is trusted and backed by scanning the real exposition for every textual form of distinctive client addresses and ports.",
     ),
+    "C09": dict(
+        engine="E6 config",
+        technique="Lean 4 theorems relating the served table of the load model (plan: legacy ports then services, raw-pair de-duplication) to an independent specification (owner of a listener key, first matching key of the owner's raw list) for every configuration, listener key and client key; validate => distinct listener keys => a service's listener is owned by that service; differential correspondence with the real server process probed by real TCP and UDP clients",
+        text="Kernel-checked for all configurations in both formats and their mixture: after a successful load the attributed id on any listener for any client key is firstMatch(ownerKeys) — authenticates iff the owner lists that cipher and secret, first id wins under duplicates and re-spellings, other services' keys do not authenticate unless listed there.",
+        note="Trusted: Lean kernel, hand model validated by the config campaign (own, foreign, removed and never-configured keys on up to 5 listeners per step), wiring facts. Crypto key separation is exercised, not modelled.",
+    ),
+    "C10": dict(
+        engine="E6 config",
+        technique="Lean 4 theorems on the load/reload model by induction over arbitrary sequences of reload attempts with a fault at any stage (read, validate, cipher of any service, bind at any index): serving table = plan of the last accepted attempt, manager handles = exactly that configuration's, failed attempts restore state and never unbind a serving address at any intermediate step; regenerated wiring facts; differential correspondence with the real loadConfig/runConfig/Stop in a child process (real files, failing binds, client probes, /proc/net, goroutines)",
+        text="Kernel-checked for every sequence of (configuration, fault) pairs: what serves is the most recent accepted configuration and nothing else; a load succeeds iff no stage fails; a failed load leaves table and handles as they were; a successful one fully replaces both; every reachable state is consistent.",
+        note="Trusted: Lean kernel, hand model validated by the config campaign, syntactic wiring facts. YAML parsing and address parsing are parameters.",
+    ),
+    "C11": dict(
+        engine="E6 config",
+        technique="Lean 4 theorems on the reload model's full trace of manager states (every acquisition and release): a retained address has >=1 handle at every step, over any number of consecutive reloads; wiring facts (start-new-before-stop-old, Stop closes listeners only, handler context reaches only the dial); differential correspondence: clients hammering retained TCP/UDP addresses during real reloads, relays (idle, mid-transfer, half-closed) opened before the reload run to completion",
+        text="Kernel-checked: during a successful (and a failing) reload an address present in both configurations is bound at every intermediate step; both generations accept a key present in both. Observed on the real server: no refused dial, no connection/datagram handled by zero or two generations, no unauthenticated retained client, relays complete.",
+        note="Partial for kernel accept-queue behaviour and timing (observed only). Exactly-one delivery among handles is C12.",
+    ),
     "C17": dict(
         engine="E7 metrics",
         technique="Lean 4 refinement proof: the tunnel-time bookkeeping model (reference counts, period restart on scrape, report on last close) against an independent per-client specification (time accrues exactly while depth>0), by induction over arbitrary op histories with a non-decreasing clock; differential correspondence with the real Prometheus collectors under a stubbed clock",
